@@ -151,3 +151,17 @@ package mysql
 //@   safety
 //@   ensures err == nil ==> 0 <= n && (n <= len(data) || n <= 8) && v != nil
 //@   ensures err != nil ==> v == nil && n == 0
+
+// ---- AcraCensor verdict in the MySQL proxy (C05): a rejected statement is answered with an error and is neither
+// rewritten, observed nor written to the database connection in that round of the loop.
+//@ func (handler *Handler) ProxyClientConnection(ctx context.Context, errCh chan<- base.ProxyError)
+//@   props C05
+//@   noinline handleStatementExecute sendClientError setQueryHandler ReadPacket replaceQuery
+//@   loop 0 step rejected-not-forwarded: itercalled(AcraCensorInterface.HandleQuery) && ret(AcraCensorInterface.HandleQuery)[0] != nil ==> !itercalled(Conn.Write) && itercalled(Handler.sendClientError) && !itercalled(QueryObserverManager.OnQuery) && !itercalled(Packet.replaceQuery)
+//@          step queries-always-checked: itercalled(QueryObserverManager.OnQuery) ==> itercalled(AcraCensorInterface.HandleQuery) && ret(AcraCensorInterface.HandleQuery)[0] == nil
+//@   at call AcraCensorInterface.HandleQuery : assert recv == handler.acracensor && arg[0] == query
+//@   at call QueryObserverManager.OnQuery : assert ret(AcraCensorInterface.HandleQuery)[0] == nil
+//@   at call Packet.replaceQuery : assert ret(AcraCensorInterface.HandleQuery)[0] == nil && recv == packet
+
+// A packet's 4-byte header buffer is allocated by its constructor and never replaced.
+//@ structural mysql-packet-header-immutable props C05 C12 C14 : field-readonly Packet.header allow NewPacket
